@@ -2,7 +2,11 @@
 """Summarises the thorough-tier evidence copies (.overlay/thorough-<ID>.json, written by the all-thorough pass)
 into thorough_results.json, which tools/mkdesign.py prints under each check."""
 import json, glob, os
-out = {}
+# summaries of checks that were not re-run in this pass are kept
+try:
+    out = json.load(open('/verif/thorough_results.json'))
+except Exception:
+    out = {}
 for p in sorted(glob.glob('/verif/.overlay/thorough-C*.json')):
     ev = json.load(open(p))
     if ev.get('tier') != 'thorough':
